@@ -247,9 +247,9 @@ Print Assumptions C17_column_ensemble_is_mean_of_members.
 Theorem C17_code_sites_are_the_model :
   (forall k rows, Forall2 Qeq (gen_tsf_combine k rows) (mean_rows k rows) /\
                   Forall2 Qeq (gen_stsf_combine k rows) (mean_rows k rows) /\
-                  gen_rise_combine k rows = mean_rows k rows /\
-                  gen_colens_combine k rows = mean_rows k rows) /\
-  (forall forest x, gen_tsfreg_combine (map (fun m => snd m (tsf_features (fst m) x)) forest) =
+                  Forall2 Qeq (gen_rise_combine k rows) (mean_rows k rows) /\
+                  Forall2 Qeq (gen_colens_combine k rows) (mean_rows k rows)) /\
+  (forall forest x, gen_tsfreg_combine (map (fun m => snd m (tsf_features (fst m) x)) forest) ==
                     tsf_reg_predict forest x) /\
   (forall (L : Type) (classes : list L) row,
      gen_tsf_predict L classes row = predict_label classes row /\
@@ -267,7 +267,8 @@ Theorem C17_code_sites_are_the_model :
 Proof.
   split.
   { intros k rows. split; [apply gen_tsf_combine_is_mean_rows|].
-    split; [apply gen_stsf_combine_is_mean_rows|]. split; reflexivity. }
+    split; [apply gen_stsf_combine_is_mean_rows|].
+    split; [apply gen_rise_combine_is_mean_rows|apply gen_colens_combine_is_mean_rows]. }
   split; [exact gen_tsfreg_combine_is_model|].
   split; [intros L classes row; apply gen_predict_is_predict_label|].
   split.
